@@ -21,8 +21,8 @@ func (pt *pathTracker) stillOnUnfollowedRemotePath(newPath datamodel.Path) bool 
 	if pt.lastUnfollowedRemotePath.Len() == 0 {
 		return false
 	}
-	// are we still on it?
-	if newPath.Len() <= pt.lastUnfollowedRemotePath.Len() {
+	// are we still on it? only if the new path lies strictly below the missing path
+	if newPath.Len() <= pt.lastUnfollowedRemotePath.Len() || !hasPathPrefix(newPath, pt.lastUnfollowedRemotePath) {
 		// if not, reset to no known missing remote path
 		pt.lastUnfollowedRemotePath = datamodel.NewPath(nil)
 		return false
@@ -39,4 +39,19 @@ func (pt *pathTracker) recordRemoteLoadAttempt(currentPath datamodel.Path, actio
 		// record the last known missing path
 		pt.lastUnfollowedRemotePath = currentPath
 	}
+}
+
+// hasPathPrefix returns true if prefix is a segment-wise prefix of p
+func hasPathPrefix(p datamodel.Path, prefix datamodel.Path) bool {
+	segments := p.Segments()
+	prefixSegments := prefix.Segments()
+	if len(prefixSegments) > len(segments) {
+		return false
+	}
+	for i, seg := range prefixSegments {
+		if !segments[i].Equals(seg) {
+			return false
+		}
+	}
+	return true
 }
